@@ -191,31 +191,50 @@ def run_campaign(mod, tier, shard, examples, col):
     # key as the only failing condition
     max_buckets = 4 if tier == "quick" else 8
     for key in sorted(col.buckets, key=lambda k: -col.buckets[k]["count"])[:max_buckets]:
-        holder = {}
-
-        class Found(Exception):
-            pass
-
-        @hypothesis.seed(seed)
-        @_settings(examples, shrink=True)
-        @given(strat)
-        def hunt(case, key=key, holder=holder):
-            res = mod.evaluate(case)
-            for k, detail in res.failures:
-                if k == key and not col.is_known(k, case):
-                    holder["case"] = case
-                    holder["detail"] = detail
-                    raise Found()
-
-        try:
-            hunt()
-        except Found:
-            pass
-        except Exception:  # flaky / unsatisfiable etc: keep the unshrunk case
-            holder.clear()
+        holder = _shrink_bucket(mod, col, strat, seed, examples, key)
         if "case" in holder and case_size(holder["case"]) <= col.buckets[key]["size"]:
             col.buckets[key].update(case=holder["case"], detail=holder["detail"],
                                     size=case_size(holder["case"]), shrunk=True)
+
+
+class _Found(Exception):
+    pass
+
+
+def _shrink_bucket(mod, col, strat, seed, examples, key):
+    """Re-find the bucket with the same seed and let Hypothesis shrink it, under a time budget:
+    once the budget is spent every further candidate counts as passing, so the shrinker stops; the
+    smallest failing case seen so far is kept."""
+    import hypothesis
+    from hypothesis import given
+    holder = {}
+    budget = 15.0 if col.tier == "quick" else 90.0
+    t_end = [None]
+
+    @hypothesis.seed(seed)
+    @_settings(examples, shrink=True)
+    @given(strat)
+    def hunt(case):
+        if t_end[0] is not None and time.time() > t_end[0]:
+            return
+        res = mod.evaluate(case)
+        for k, detail in res.failures:
+            if k == key and not col.is_known(k, case):
+                if t_end[0] is None:
+                    t_end[0] = time.time() + budget
+                sz = case_size(case)
+                if "case" not in holder or sz <= holder["size"]:
+                    holder.update(case=case, detail=detail, size=sz)
+                raise _Found()
+
+    try:
+        hunt()
+    except _Found:
+        pass
+    except Exception as e:  # Flaky after the budget ran out, unsatisfiable, ...: keep what we have
+        if "case" not in holder:
+            sys.stderr.write(f"shrink pass for {key} failed: {type(e).__name__}: {str(e)[:300]}\n")
+    return holder
 
 
 # ------------------------------------------------------------------ parent process
